@@ -402,22 +402,23 @@ func classMatches(class, pat string) bool {
 
 // State is the symbolic state along one path.
 type State struct {
-	heap     map[string]Term
-	epochs   []epoch
-	alloc    Term
-	pc       []Term
-	defs     []string
-	log      []LogEntry
-	dirty    []dirtyObj
-	invSeen  map[string]bool
-	inQuant  int
-	trace    []string
-	noSide   bool // spec evaluation: do not add side assumptions
-	param    *paramHeap
-	pending  Term              // ghost: first error returned by a propagating callee and not yet returned
-	boundary *State            // heap at the last boundary (entry, after a call, loop head): object invariants hold there
-	locals   []Term            // unescaped objects allocated by this activation
-	inside   map[string]string // local object stored inside another local object
+	heap      map[string]Term
+	epochs    []epoch
+	alloc     Term
+	pc        []Term
+	defs      []string
+	log       []LogEntry
+	dirty     []dirtyObj
+	dirtyKeep []dirtyObj
+	invSeen   map[string]bool
+	inQuant   int
+	trace     []string
+	noSide    bool // spec evaluation: do not add side assumptions
+	param     *paramHeap
+	pending   Term              // ghost: first error returned by a propagating callee and not yet returned
+	boundary  *State            // heap at the last boundary (entry, after a call, loop head): object invariants hold there
+	locals    []Term            // unescaped objects allocated by this activation
+	inside    map[string]string // local object stored inside another local object
 }
 
 type dirtyObj struct {
